@@ -325,11 +325,43 @@ def build_structure(case):
     return arr
 
 
-def write_pdb(arr, hybrid36, via_convert):
-    """-> (lines, warnings).  Exceptions propagate."""
+def _decoy_like(n_lines, first_is_cryst1):
+    """A structure whose PDB text has `n_lines` lines but another layout (box line or not)."""
+    import biotite.structure as struc
+
+    n = n_lines if first_is_cryst1 else n_lines - 1
+    if n < 1:
+        return None
+    decoy = struc.AtomArray(n)
+    decoy.coord[:] = 1.0
+    decoy.chain_id[:] = "Z"
+    decoy.res_id[:] = 1
+    decoy.res_name[:] = "DCY"
+    decoy.atom_name[:] = "D"
+    decoy.element[:] = "C"
+    if not first_is_cryst1:
+        decoy.box = np.eye(3, dtype=np.float32) * 10
+    return decoy
+
+
+def write_pdb(arr, hybrid36, via_convert, reuse_file=False):
+    """-> (lines, warnings).  Exceptions propagate.
+
+    reuse_file: the PDBFile object has held (and been read as) another structure with the same
+    number of lines before - set_structure() must replace it completely."""
     import biotite.structure.io.pdb as pdb
 
     f = pdb.PDBFile()
+    if reuse_file:
+        probe = pdb.PDBFile()
+        with warnings.catch_warnings():
+            warnings.simplefilter("ignore")
+            probe.set_structure(arr, hybrid36=hybrid36)
+        decoy = _decoy_like(len(probe.lines), len(probe.lines) > 0 and probe.lines[0].startswith("CRYST1"))
+        if decoy is not None:
+            f.set_structure(decoy)
+            f.get_structure(model=1)
+            f.get_model_count()
     with warnings.catch_warnings(record=True) as w:
         warnings.simplefilter("always")
         if via_convert:
@@ -703,9 +735,21 @@ def run_roundtrip(case):
         return o
     nontrivial = label_case(o, case)
     arr = build_structure(case)
-    f, lines, warns = write_pdb(arr, case["hybrid36"], case.get("via_convert", False))
+    reuse = len(case["atoms"]) % 2 == 0
+    if reuse:
+        o.label("file_object_reused")
+    f, lines, warns = write_pdb(arr, case["hybrid36"], case.get("via_convert", False), reuse_file=reuse)
     check_grammar(o, lines, case["hybrid36"])
     check_written_fields(o, case, lines)
+    # the live object must give what a fresh parse of its own text gives
+    live = f.get_structure(model=None, extra_fields=["atom_id", "b_factor", "occupancy", "charge"])
+    fresh = reread(f).get_structure(model=None, extra_fields=["atom_id", "b_factor", "occupancy", "charge"])
+    o.check(
+        live.coord.shape == fresh.coord.shape and live == fresh and np.array_equal(live.coord, fresh.coord, equal_nan=True),
+        "live_object_equals_reparsed_text",
+        lambda: f"live object: shape {live.coord.shape}, re-parsed text: shape {fresh.coord.shape}",
+    )
+    o.check_eq(f.get_model_count(), reread(f).get_model_count(), "live_object_equals_reparsed_text", "model count")
     if case.get("cell") is not None:
         o.check(sum(l.startswith("CRYST1") for l in lines) == 1, "box_reproduced", "exactly one CRYST1 record expected")
     check_roundtrip(o, case, f)
